@@ -122,6 +122,14 @@ fn model_un(l: Layout, op: usize, a: u128) -> Option<Out> {
     })
 }
 fn model_rot(l: Layout, dir: usize, a: u128, n: u32) -> Out {
+    match dir {
+        2 => return Out::V(a & mask(l.w)),
+        3 => return Out::V(l.min_raw()),
+        4 => return Out::V(l.max_raw()),
+        5 => return Out::C(l.int_bits() as u64),
+        6 => return Out::C(l.frac as u64),
+        _ => {}
+    }
     let w = l.w;
     let a = a & mask(w);
     let k = n % w;
@@ -222,6 +230,10 @@ fn model_to_num(l: Layout, dst: usize, a: u128) -> Option<Out> {
         Some(dl) => {
             let z = l.z(a);
             let r = if dl.frac >= l.frac { z.shl(dl.frac - l.frac) } else { z.shr_floor(l.frac - dl.frac) };
+            if !dl.fits(&r) {
+                // plain conversion without overflow handling: nothing is specified
+                return None;
+            }
             Out::V(dl.wrap(&r))
         }
         None => {
@@ -348,16 +360,20 @@ impl<'a> Ctx<'a> {
             if let Out::V(v) = got {
                 succ.push(v);
             }
-            // judged: the operations C18 lists; bit counts, is_*, next_power_of_two are executed (successor states,
-            // C11 digests) but not judged
-            let listed = !matches!(UN[op], "count_ones" | "count_zeros" | "leading_zeros" | "trailing_zeros" | "is_positive" | "is_negative" | "next_power_of_two" | "is_power_of_two");
-            self.judge(2, || format!("wrap {} un {} {:#x}", name, UN[op], a), got, if listed { model_un(l, op, a) } else { None }, None, UN[op]);
+            // bit counts, is_*, next_power_of_two are not in the list of C18 but are forwarders with a definitional
+            // value (a count of bits of the pattern, the sign, the next power of two or 0): judged like the others
+            self.judge(2, || format!("wrap {} un {} {:#x}", name, UN[op], a), got, model_un(l, op, a), None, UN[op]);
         }
         for dir in 0..2 {
             for n in [0u32, 1, l.w - 1, l.w / 2] {
                 let got = subject(|| (e.rot)(dir, a, n)).unwrap_or(Out::Panic);
                 self.judge(3, || format!("wrap {} rot {} {:#x} {}", name, dir, a, n), got, Some(model_rot(l, dir, a, n)), None, "rotate");
             }
+        }
+        // `Wrapping::from(F)`; for the first state also the limits and layout functions of `Wrapping<F>`
+        for dir in 2..(if a == 0 { 7 } else { 3 }) {
+            let got = subject(|| (e.rot)(dir, a, 0)).unwrap_or(Out::Panic);
+            self.judge(2, || format!("wrap {} rot {} {:#x} 0", name, dir, a), got, Some(model_rot(l, dir, a, 0)), None, if dir == 2 { "from_fixed" } else { "limits" });
         }
         // shifts: every amount type x amounts x 6 forms
         for dir in 0..2 {
@@ -403,9 +419,8 @@ impl<'a> Ctx<'a> {
         for dst in 0..NUMS.len() {
             if let Some(exp) = model_to_num(l, dst, a) {
                 let got = subject(|| (e.to_num)(dst, a)).unwrap_or(Out::Panic);
-                // to_num is not among the operations C18 lists: executed and digested, not judged
-                let _ = exp;
-                self.judge(7, || format!("wrap {} to_num {} {:#x}", name, NUMS[dst], a), got, None, None, "to_num");
+                // to_num forwards to `F::to_num`: judged where the value fits the destination (the model returns None otherwise)
+                self.judge(7, || format!("wrap {} to_num {} {:#x}", name, NUMS[dst], a), got, Some(exp), None, "to_num");
             }
         }
     }
